@@ -6,15 +6,21 @@ import Rg.Model.XTypes
   the pattern string with `$*` / `$` replaced by the placeholder prefixes; that parser is trusted).
 * `Pat` — `pattern{op, value, subs}`.
 * `parseExpr` — `Parse`'s conversion, with the import table (`ImportsTab`) as a stack of scopes.
-* `matchIdentical` / `matchSubs` — `(*Pattern).matchIdentical` / `matchIdenticalFielder` exactly as written:
-  the binding tables (`MatcherState`) are threaded through every call and *keep* what a failed
+* `matchK` / `matchFieldsK` — `(*Pattern).matchIdentical` / `matchFields` as they are now (after
+  `fixes/c10-*.diff`): a backtracking matcher in continuation-passing style.  `next` is "the rest of the match";
+  the binding tables (`MatcherState`, mutable in Go) are threaded through every call and through `next`, a
+  binding made for an attempt whose continuation fails is deleted again (`MState.delT` / `delI`), every split
+  point of a `$*_` is tried (`trySplits`).  The type is unaliased on entry, `opFunc*` reject variadic and
+  generic signatures, `opNamed` rejects function-local types and strips the import path up to the *last*
+  `/vendor/` or a leading `vendor/`; `opNamed` still ignores type arguments.
+* `matchIdenticalAsIs` / `matchSubsAsIs` / `matchAllAsIs` — `matchIdentical` / `matchIdenticalFielder` as they
+  were before the repairs (kept for the kernel-checked counterexamples): the tables *keep* what a failed
   alternative bound; the sequence matcher is non-greedy with one-pattern look-ahead and never backtracks;
-  `opNamed` strips the import path up to the *last* `/vendor/` or a leading `vendor/` (since the `fix:` commit for D24); nothing is unaliased; `opFunc*` ignore
-  `Variadic()`; `opNamed` ignores type arguments.  Identity of types is `xtypes.Identical`
-  (`XTypes.tid fx`, `fx = false`: as it stands).
+  nothing is unaliased; `opFunc*` ignore `Variadic()`.  Identity of types is `xtypes.Identical`
+  (`XTypes.tid fx`, `fx = false`: before `fixes/xtypes-identical.diff`).
 
-The `for i < len(subs)` loop of `matchIdenticalFielder` (indices `i`, `fieldsMatched`, flag `matchAny`) is
-written as structural recursion: `matchSubs st subs fields` is the loop at `subs[i:]`, `fields[fieldsMatched:]`
+The `for i < len(subs)` loop of the old `matchIdenticalFielder` (indices `i`, `fieldsMatched`, flag `matchAny`) is
+written as structural recursion: `matchSubsAsIs st subs fields` is the loop at `subs[i:]`, `fields[fieldsMatched:]`
 with `matchAny = false`; when `subs[i]` is `$*_` the flag is set and `scanSeq` is the run of iterations with
 `matchAny = true` at that `i` (each one either stops on "nothing left", succeeds in the look-ahead
 `subs[i+1]` against the current field, or skips the field).
@@ -234,7 +240,7 @@ def Pat.isSeq : Pat → Bool
 `p.matchIdentical(state, subs[i+1], field.Type())`, `rest st fields` continues after a successful
 look-ahead (`i += 2`), `stop st` continues when nothing is left (`i++` with no fields: from there on the
 loop can only pass over further `$*_`, any other pattern hits `fieldsLeft == 0 → return false`, so the
-answer is "all remaining patterns are `$*_`", cf. `matchSubs_nil` in `Rg/Proofs/TypeMatch.lean`). -/
+answer is "all remaining patterns are `$*_`", cf. `matchSubsAsIs_nil` in `Rg/Proofs/TypeMatch.lean`). -/
 def scanSeq (look : MState → Ty → Bool × MState) (rest : MState → List Ty → Bool × MState)
     (stop : MState → Bool × MState) (st : MState) : List Ty → Bool × MState
   | [] => stop st
@@ -244,8 +250,8 @@ def scanSeq (look : MState → Ty → Bool × MState) (rest : MState → List Ty
       | (false, st') => scanSeq look rest stop st' fs
 
 mutual
-/-- `(*Pattern).matchIdentical(state, sub, typ)` -/
-def matchIdentical (fx : Bool) (st : MState) (sub : Pat) (typ : Ty) : Bool × MState :=
+/-- `(*Pattern).matchIdentical(state, sub, typ)` before the repairs -/
+def matchIdenticalAsIs (fx : Bool) (st : MState) (sub : Pat) (typ : Ty) : Bool × MState :=
   match sub, typ with
   | .var name, typ =>
       if name == "_" then (true, st)
@@ -255,34 +261,34 @@ def matchIdentical (fx : Bool) (st : MState) (sub : Pat) (typ : Ty) : Bool × MS
   | .builtin b, typ => (tid fx typ b, st)
   | .ptr e, typ =>
       match typ with
-      | .ptr t => matchIdentical fx st e t
+      | .ptr t => matchIdenticalAsIs fx st e t
       | _ => (false, st)
   | .slice e, typ =>
       match typ with
-      | .slice t => matchIdentical fx st e t
+      | .slice t => matchIdenticalAsIs fx st e t
       | _ => (false, st)
   | .arrayVar v e, typ =>
       match typ with
       | .array n t =>
-        if v == "_" then matchIdentical fx st e t
+        if v == "_" then matchIdenticalAsIs fx st e t
         else match lookupI st v with
-          | some len => if len == n then matchIdentical fx st e t else (false, st)
-          | none => matchIdentical fx { st with im := (v, n) :: st.im } e t
+          | some len => if len == n then matchIdenticalAsIs fx st e t else (false, st)
+          | none => matchIdenticalAsIs fx { st with im := (v, n) :: st.im } e t
       | _ => (false, st)
   | .arrayLit len e, typ =>
       match typ with
-      | .array n t => if len == n then matchIdentical fx st e t else (false, st)
+      | .array n t => if len == n then matchIdenticalAsIs fx st e t else (false, st)
       | _ => (false, st)
   | .map k v, typ =>
       match typ with
       | .map tk tv =>
-        match matchIdentical fx st k tk with
-        | (true, st') => matchIdentical fx st' v tv
+        match matchIdenticalAsIs fx st k tk with
+        | (true, st') => matchIdenticalAsIs fx st' v tv
         | (false, st') => (false, st')
       | _ => (false, st)
   | .chan dir e, typ =>
       match typ with
-      | .chan d t => if dir == d then matchIdentical fx st e t else (false, st)
+      | .chan d t => if dir == d then matchIdenticalAsIs fx st e t else (false, st)
       | _ => (false, st)
   | .named pkgPath typeName, typ =>
       match typ with
@@ -299,24 +305,24 @@ def matchIdentical (fx : Bool) (st : MState) (sub : Pat) (typ : Ty) : Bool × MS
         if ps.length != pps.length then (false, st)
         else if rs.length != prs.length then (false, st)
         else
-          match matchAll fx st pps ps with
-          | (true, st') => matchAll fx st' prs rs
+          match matchAllAsIs fx st pps ps with
+          | (true, st') => matchAllAsIs fx st' prs rs
           | (false, st') => (false, st')
       | _ => (false, st)
   | .func pps prs, typ =>
       match typ with
       | .sig _ _ params results =>
-        match matchSubs fx st pps (tupleElems params) with
-        | (true, st') => matchSubs fx st' prs (tupleElems results)
+        match matchSubsAsIs fx st pps (tupleElems params) with
+        | (true, st') => matchSubsAsIs fx st' prs (tupleElems results)
         | (false, st') => (false, st')
       | _ => (false, st)
   | .structNoSeq subs, typ =>
       match typ with
-      | .struct fs => if fs.length != subs.length then (false, st) else matchAll fx st subs (fieldTypes fs)
+      | .struct fs => if fs.length != subs.length then (false, st) else matchAllAsIs fx st subs (fieldTypes fs)
       | _ => (false, st)
   | .struct subs, typ =>
       match typ with
-      | .struct fs => matchSubs fx st subs (fieldTypes fs)
+      | .struct fs => matchSubsAsIs fx st subs (fieldTypes fs)
       | _ => (false, st)
   | .anyIface, typ =>
       match typ with
@@ -326,37 +332,157 @@ def matchIdentical (fx : Bool) (st : MState) (sub : Pat) (typ : Ty) : Bool × MS
 termination_by structural sub
 
 /-- the `for i := …` loops of `opFuncNoSeq` / `opStructNoSeq` (lengths already checked equal) -/
-def matchAll (fx : Bool) (st : MState) (subs : List Pat) (ts : List Ty) : Bool × MState :=
+def matchAllAsIs (fx : Bool) (st : MState) (subs : List Pat) (ts : List Ty) : Bool × MState :=
   match subs, ts with
   | [], _ => (true, st)
   | _ :: _, [] => (true, st)
   | p :: ps, t :: ts =>
-      match matchIdentical fx st p t with
-      | (true, st') => matchAll fx st' ps ts
+      match matchIdenticalAsIs fx st p t with
+      | (true, st') => matchAllAsIs fx st' ps ts
       | (false, st') => (false, st')
 termination_by structural subs
 
 /-- `matchIdenticalFielder(state, subs, f)` from position `i` with `matchAny = false` -/
-def matchSubs (fx : Bool) (st : MState) (subs : List Pat) (fields : List Ty) : Bool × MState :=
+def matchSubsAsIs (fx : Bool) (st : MState) (subs : List Pat) (fields : List Ty) : Bool × MState :=
   match subs, fields with
   | [], fields => (fields.isEmpty, st)              -- `return numFields == fieldsMatched`
   | .varSeq :: rest, fields =>
       match rest with
       | [] => (true, st)                            -- every remaining field is skipped, then `i++`
       | next :: rest' =>
-          scanSeq (fun st t => matchIdentical fx st next t) (fun st fs => matchSubs fx st rest' fs)
+          scanSeq (fun st t => matchIdenticalAsIs fx st next t) (fun st fs => matchSubsAsIs fx st rest' fs)
             (fun st => (rest.all Pat.isSeq, st)) st fields
   | pat :: rest, fields =>
       match fields with
       | [] => (false, st)                           -- `fieldsLeft == 0`
       | f :: fs =>
-        match matchIdentical fx st pat f with
-        | (true, st') => matchSubs fx st' rest fs
+        match matchIdenticalAsIs fx st pat f with
+        | (true, st') => matchSubsAsIs fx st' rest fs
         | (false, st') => (false, st')
 termination_by structural subs
 end
 
+/-- `(*Pattern).MatchIdentical(state, typ)` before the repairs: reset, then match the root -/
+def matchTopAsIs (fx : Bool) (p : Pat) (typ : Ty) : Bool := (matchIdenticalAsIs fx MState.empty p typ).1
+
+
+/-! ## matching, current code: backtracking in continuation-passing style -/
+
+/-- `delete(state.typeMatches, name)` -/
+def MState.delT (st : MState) (n : String) : MState := { st with tm := st.tm.filter fun kv => !(kv.1 == n) }
+/-- `delete(state.int64Matches, name)` -/
+def MState.delI (st : MState) (n : String) : MState := { st with im := st.im.filter fun kv => !(kv.1 == n) }
+
+/-- the loop `for i := pos; i <= f.NumFields(); i++ { if p.matchFields(state, subs[1:], f, i, next) { return true } }; return false`
+of `matchFields` at a `$*_`: `rest fields st` is `p.matchFields(state, subs[1:], f, i, next)` with `fields` the fields from `i` on -/
+def trySplits (rest : List Ty → MState → Bool × MState) : List Ty → MState → Bool × MState
+  | [], st => rest [] st
+  | f :: fs, st =>
+      match rest (f :: fs) st with
+      | (true, st') => (true, st')
+      | (false, st') => trySplits rest fs st'
+
+mutual
+/-- `(*Pattern).matchIdentical(state, sub, typ, next)` -/
+def matchK (fx : Bool) (sub : Pat) (typ : Ty) (st : MState) (next : MState → Bool × MState) : Bool × MState :=
+  match sub with
+  | .var name =>
+      if name == "_" then next st
+      else match lookupT st name with
+        | none =>
+            -- `state.typeMatches[name] = typ; if next() { return true }; delete(state.typeMatches, name); return false`
+            match next { st with tm := (name, unalias typ) :: st.tm } with
+            | (true, st') => (true, st')
+            | (false, st') => (false, st'.delT name)
+        | some y =>
+            if y = .nil then (if unalias typ = .nil then next st else (false, st))
+            else (if tid fx (unalias typ) y then next st else (false, st))
+  | .builtin b => if tid fx (unalias typ) b then next st else (false, st)
+  | .ptr e =>
+      match unalias typ with
+      | .ptr t => matchK fx e t st next
+      | _ => (false, st)
+  | .slice e =>
+      match unalias typ with
+      | .slice t => matchK fx e t st next
+      | _ => (false, st)
+  | .arrayVar v e =>
+      match unalias typ with
+      | .array n t =>
+        if v == "_" then matchK fx e t st next
+        else match lookupI st v with
+          | some len => if len == n then matchK fx e t st next else (false, st)
+          | none =>
+              match matchK fx e t { st with im := (v, n) :: st.im } next with
+              | (true, st') => (true, st')
+              | (false, st') => (false, st'.delI v)
+      | _ => (false, st)
+  | .arrayLit len e =>
+      match unalias typ with
+      | .array n t => if len == n then matchK fx e t st next else (false, st)
+      | _ => (false, st)
+  | .map k v =>
+      match unalias typ with
+      | .map tk tv => matchK fx k tk st fun st' => matchK fx v tv st' next
+      | _ => (false, st)
+  | .chan dir e =>
+      match unalias typ with
+      | .chan d t => if dir == d then matchK fx e t st next else (false, st)
+      | _ => (false, st)
+  | .named pkgPath typeName =>
+      match unalias typ with
+      | .named _ _ pkg name _ loc _ =>
+        match pkg with
+        | none => (false, st)
+        | some objPath =>
+            if typeName == name && !loc && vendorStrip objPath == pkgPath then next st else (false, st)
+      | _ => (false, st)
+  | .funcNoSeq pps prs =>
+      match unalias typ with
+      | .sig variadic tps params results =>
+        if variadic || !tps.isEmpty then (false, st)
+        else if (tupleElems params).length != pps.length then (false, st)
+        else if (tupleElems results).length != prs.length then (false, st)
+        else matchFieldsK fx pps (tupleElems params) st fun st' => matchFieldsK fx prs (tupleElems results) st' next
+      | _ => (false, st)
+  | .func pps prs =>
+      match unalias typ with
+      | .sig variadic tps params results =>
+        if variadic || !tps.isEmpty then (false, st)
+        else matchFieldsK fx pps (tupleElems params) st fun st' => matchFieldsK fx prs (tupleElems results) st' next
+      | _ => (false, st)
+  | .structNoSeq subs =>
+      match unalias typ with
+      | .struct fs => if fs.length != subs.length then (false, st) else matchFieldsK fx subs (fieldTypes fs) st next
+      | _ => (false, st)
+  | .struct subs =>
+      match unalias typ with
+      | .struct fs => matchFieldsK fx subs (fieldTypes fs) st next
+      | _ => (false, st)
+  | .anyIface =>
+      match unalias typ with
+      | .iface .. => next st
+      | _ => (false, st)
+  | .varSeq => (false, st)                          -- `default: return false`
+termination_by structural sub
+
+/-- `(*Pattern).matchFields(state, subs, f, pos, next)`; `fields` are the fields of `f` from `pos` on -/
+def matchFieldsK (fx : Bool) (subs : List Pat) (fields : List Ty) (st : MState) (next : MState → Bool × MState) :
+    Bool × MState :=
+  match subs with
+  | [] => if fields.isEmpty then next st else (false, st)      -- `return pos == f.NumFields() && next()`
+  | pat :: rest =>
+      if pat.isSeq then trySplits (fun fs st' => matchFieldsK fx rest fs st' next) fields st
+      else match fields with
+        | [] => (false, st)                                      -- `pos == f.NumFields()`
+        | f :: fs => matchK fx pat f st fun st' => matchFieldsK fx rest fs st' next
+termination_by structural subs
+end
+
+/-- the continuation of a complete match (`matched`) -/
+def matchedK (st : MState) : Bool × MState := (true, st)
+
 /-- `(*Pattern).MatchIdentical(state, typ)`: reset, then match the root -/
-def matchTop (fx : Bool) (p : Pat) (typ : Ty) : Bool := (matchIdentical fx MState.empty p typ).1
+def matchTop (fx : Bool) (p : Pat) (typ : Ty) : Bool := (matchK fx p typ MState.empty matchedK).1
 
 end TypeMatch
